@@ -300,6 +300,13 @@ func (u *Unit) execBinOp(st *State, x *ssa.BinOp) Term {
 		switch {
 		case isStr:
 			e = u.strEq(st, x.X, x.Y, a, b)
+		case a.Sort == SSlice:
+			// slices only compare with nil: nil-ness is a nil backing array
+			if c, ok := x.Y.(*ssa.Const); ok && c.Value == nil {
+				e = eq(app("sbase", SInt, a), intLit(0))
+			} else {
+				e = eq(app("sbase", SInt, b), intLit(0))
+			}
 		default:
 			e = eq(a, b)
 		}
@@ -775,6 +782,9 @@ func (u *Unit) mapComps(t types.Type) mapComps {
 	mt := t.Underlying().(*types.Map)
 	m := u.eng.tn.mangle(mt)
 	ks, vs := u.sortOf(mt.Key()), u.sortOf(mt.Elem())
+	for _, c := range []string{"MD_" + m, "MV_" + m, "MC_" + m} {
+		u.eng.notePkg(c, mt)
+	}
 	return mapComps{dom: "MD_" + m, val: "MV_" + m, card: "MC_" + m,
 		domS: arraySort(SInt, arraySort(ks, SBool)), valS: arraySort(SInt, arraySort(ks, vs)),
 		ks: ks, vs: vs, kT: mt.Key(), vT: mt.Elem()}
